@@ -144,6 +144,9 @@ def _cases(draw, tier):
             near = r.replace('.', draw(st.sampled_from(['z', '_', '0']))) if '.' in r else r + draw(st.sampled_from(['q', '_', '9']))
             if near.lower() not in [x.lower() for x in isa.registers]:
                 ops[i] = {'k': 'raw', 'text': near if ops[i]['k'] == 'reg' else '[' + near + ']'}
+    elif perturb == 'garbage' and not ops:
+        # a statement without operands followed by separators only
+        ops = [{'k': 'raw', 'text': draw(st.sampled_from([',', ', ,', ',,']))}]
     elif perturb == 'garbage' and ops:
         # an acceptable operand followed by text that belongs to nothing: no alternative reads the whole of it
         i = draw(st.integers(0, len(ops) - 1))
